@@ -115,20 +115,23 @@ def gen_cond(rng, env, budget):
     r = rng.random()
     if budget <= 0 or r < 0.15:
         q = rng.random()
-        if q < 0.5:
+        if q < 0.5 or budget <= 0:
             return ("bool", rng.random() < 0.7), 0
+        # a bare boolean variable is not accepted as a condition: wrap it (documented idiom: (|| v cond))
         if q < 0.7 and env.bool_rc:
-            return ("var", rng.choice(env.bool_rc)), 0
-        if q < 0.8 and env.locals_bool:
-            return ("var", rng.choice(env.locals_bool)), 0
-        return ("var", PRIM_BOOL), 0
+            v = ("var", rng.choice(env.bool_rc))
+        elif q < 0.8 and env.locals_bool:
+            v = ("var", rng.choice(env.locals_bool))
+        else:
+            v = ("var", PRIM_BOOL)
+        return (("op", "and", v, ("bool", True)) if rng.random() < 0.7 else ("op", "or", v, ("bool", False))), 1
     if r < 0.75 or budget < 3:
         l, ul = gen_num(rng, env, min(budget - 1, rng.randrange(0, 3)))
         rr, ur = gen_num(rng, env, min(budget - 1 - ul, rng.randrange(0, 3)))
         return ("op", rng.choice(CMPS), l, rr), ul + ur + 1
     l, ul = gen_cond(rng, env, (budget - 1) // 2)
     rr, ur = gen_cond(rng, env, budget - 1 - ul)
-    return ("op", rng.choice(["and", "or"]), l, rr), ul + ur + 1
+    return ("op", rng.choice(["and", "and", "or"]), l, rr), ul + ur + 1
 
 
 def gen_stmt(rng, env, max_tmps=8, allow_new_local=True):
@@ -183,7 +186,7 @@ def gen_stmt(rng, env, max_tmps=8, allow_new_local=True):
     return ("op", "bind", ("var", tgt), v)
 
 
-def gen_program(rng, nrep=None, nctl=None, nev=None, bools=True):
+def gen_program(rng, nrep=None, nctl=None, nev=None, bools=True, ensure_report=0.0):
     d = gen_decls(rng, nrep, nctl, bools)
     env = Env(d)
     evs = []
@@ -191,6 +194,11 @@ def gen_program(rng, nrep=None, nctl=None, nev=None, bools=True):
         c, _ = gen_cond(rng, env, rng.choice([0, 1, 2, 4, 8]))
         body = [gen_stmt(rng, env) for _ in range(rng.randrange(1, 7))]
         evs.append((c, body))
+    if rng.random() < ensure_report:
+        c, body = rng.choice(evs)
+        body.insert(rng.randrange(len(body) + 1), ("cmd", "report"))
+        if rng.random() < 0.5:
+            evs[0][1].append(("cmd", "fallthrough"))
     return {"decls": d, "events": evs, "env": env}
 
 
